@@ -10,7 +10,7 @@ S=$(mktemp -d /tmp/cosetcov.XXXXXX)
 trap 'rm -rf "$S"' EXIT
 B=$(dirname "$(rustc +nightly --print target-libdir)")/bin
 IDS="${*:-C01 C02 C03 C04 C05 C06 C07 C08 C09 C10 C11 C12 C13 C14 C15 C16 C17 C18 C19 C20}"
-( cd /verif/harness && CARGO_NET_OFFLINE=true RUSTFLAGS="-C instrument-coverage" \
+( cd /verif/harness && LLVM_PROFILE_FILE="$S/build-%p.profraw" CARGO_NET_OFFLINE=true RUSTFLAGS="-C instrument-coverage" \
     cargo +nightly build --release --offline --target-dir "$S/target" ) > "$S/build.log" 2>&1 || { tail -20 "$S/build.log"; exit 2; }
 mkdir -p "$S/root/evidence" "$S/root/out" "$S/prof"
 for f in regress corpus KNOWN_FINDINGS.txt; do ln -sfn /verif/$f "$S/root/$f"; done
